@@ -127,43 +127,51 @@ def uncoupled_job(job):
 
 
 def twosite_job(job):
-    """numerical: a two-site chain with a generic (non-commuting) coupling equals the dense propagator"""
+    """numerical: a two-site chain with a generic (non-commuting) coupling equals the dense propagator; the two sites may
+    have different dimensions"""
     import oqupy
     from scipy.linalg import expm
-    seed, order, n = job
+    seed, order, n = job[:3]
+    da, db = (job[3], job[4]) if len(job) > 3 else (2, 2)
     from harness import probes
-    r = probes.rng_for(seed, "twosite", order)
+    r = probes.rng_for(seed, "twosite", order, da, db)
+
     def herm(k):
         a = r.normal(size=(k, k)) + 1j * r.normal(size=(k, k))
         return (a + a.conj().T) / 2
-    h0, h1 = herm(2), herm(2)
-    cl, cr = herm(2), herm(2)
-    cl2, cr2 = herm(2), herm(2)
-    lind = r.normal(size=(2, 2)) + 1j * r.normal(size=(2, 2))
+
+    def gen(k):
+        return r.normal(size=(k, k)) + 1j * r.normal(size=(k, k))
+    h0, h1 = herm(da), herm(db)
+    cl, cr = herm(da), herm(db)
+    cl2, cr2 = herm(da), herm(db)
+    lind = gen(db)
     gamma = 0.3
-    chain = oqupy.SystemChain([2, 2])
+    chain = oqupy.SystemChain([da, db])
     chain.add_site_hamiltonian(0, h0)
     chain.add_site_hamiltonian(1, h1)
     chain.add_nn_hamiltonian(0, cl, cr)
     chain.add_nn_hamiltonian(0, cl2, cr2)
     chain.add_site_dissipation(1, lind, gamma)
     # a two-site dissipator with generic complex (non-normal) operators on both sites
-    nl = r.normal(size=(2, 2)) + 1j * r.normal(size=(2, 2))
-    nr = r.normal(size=(2, 2)) + 1j * r.normal(size=(2, 2))
+    nl, nr = gen(da), gen(db)
     gamma2 = 0.2
     chain.add_nn_dissipation(0, nl, nr, gamma2)
-    rho_a, rho_b = probes.generic_rho(2, seed), probes.generic_rho(2, seed + 1)
+    rho_a, rho_b = probes.generic_rho(da, seed), probes.generic_rho(db, seed + 1)
     tebd = oqupy.PtTebd(oqupy.AugmentedMPS([rho_a.copy(), rho_b.copy()]), chain, [None, None],
                         oqupy.PtTebdParameters(dt=ce.DT, order=order, epsrel=1e-13), dynamics_sites=[(0, 1), 0, 1])
     res = tebd.compute(n, progress_type="silent")
     # dense reference
-    i2 = np.eye(2)
-    hfull = np.kron(h0, i2) + np.kron(i2, h1) + np.kron(cl, cr) + np.kron(cl2, cr2)
-    a = np.kron(i2, lind)
+    dd = da * db
+    ia, ib = np.eye(da), np.eye(db)
+    hfull = np.kron(h0, ib) + np.kron(ia, h1) + np.kron(cl, cr) + np.kron(cl2, cr2)
+    a = np.kron(ia, lind)
+
     def lsup(op):
-        return np.kron(op, np.eye(4))
+        return np.kron(op, np.eye(dd))
+
     def rsup(op):
-        return np.kron(np.eye(4), op.T)
+        return np.kron(np.eye(dd), op.T)
     liou = -1j * (lsup(hfull) - rsup(hfull)) + gamma * (lsup(a) @ rsup(a.conj().T)
                                                         - 0.5 * lsup(a.conj().T @ a) - 0.5 * rsup(a.conj().T @ a))
     a2 = np.kron(nl, nr)
@@ -171,14 +179,18 @@ def twosite_job(job):
     rho = np.kron(rho_a, rho_b).reshape(-1)
     out = []
     for k in range(n + 1):
-        want = (expm(liou * ce.DT * k) @ rho).reshape(4, 4)
+        want = (expm(liou * ce.DT * k) @ rho).reshape(dd, dd)
         got = np.array(res["dynamics"][(0, 1)].states[k])
-        if np.max(np.abs(got - want)) > 1e-8:
-            out.append({"what": "two-site-propagator", "step": k, "err": float(np.max(np.abs(got - want)))})
+        if got.shape != want.shape or np.max(np.abs(got - want)) > 1e-8:
+            out.append({"what": "two-site-propagator", "step": k, "dims": [da, db],
+                        "err": float(np.max(np.abs(got - want))) if got.shape == want.shape else "shape"})
             break
-        pa = np.trace(want.reshape(2, 2, 2, 2), axis1=1, axis2=3)
-        if np.max(np.abs(np.array(res["dynamics"][0].states[k]) - pa)) > 1e-8:
-            out.append({"what": "partial-trace", "step": k})
+        w4 = want.reshape(da, db, da, db)
+        pa = np.trace(w4, axis1=1, axis2=3)
+        pb = np.trace(w4, axis1=0, axis2=2)
+        if np.max(np.abs(np.array(res["dynamics"][0].states[k]) - pa)) > 1e-8 or \
+                np.max(np.abs(np.array(res["dynamics"][1].states[k]) - pb)) > 1e-8:
+            out.append({"what": "partial-trace", "step": k, "dims": [da, db]})
             break
         if abs(res["norm"][k] - 1) > 1e-9:
             out.append({"what": "norm", "step": k})
@@ -270,9 +282,9 @@ def run(ctx):
         ctx.case({"uncoupled": True, "l": c["l"]}, nontrivial=True)
         for x in mm:
             ctx.violation("C10:uncoupled:%s" % x["what"], str(x), {"case": c, "mode": "uncoupled"})
-    tj = [(ctx.seed, order, 3) for order in (1, 2)]
+    tj = [(ctx.seed, order, 3) for order in (1, 2)] + [(ctx.seed, order, 2, da, db) for order in (1, 2) for da, db in ((2, 3), (3, 2))]
     for j, mm in zip(tj, core.pmap(twosite_job, tj)):
-        ctx.case({"two_site_dense": {"order": j[1]}}, nontrivial=True)
+        ctx.case({"two_site_dense": {"order": j[1], "dims": list(j[3:5]) if len(j) > 3 else [2, 2]}}, nontrivial=True)
         for x in mm:
             ctx.violation("C10:two-site:%s" % x["what"], "%s: %s" % (j, x), {"twosite": list(j)})
     # execution modes on a generic entangling chain whose result depends on the truncation threshold
